@@ -309,3 +309,14 @@ obligation('C09', 'S2.emergency_withdraw_%d_farms_active_one_last' % _MANY,
                      'listing): its owner still receives the owners share, the owner of the inactive farms nothing' % _MANY,
            bounds='amount [1,2^128/17), base penalty [0,100%%], %d farms with fixed activity, times symbolic' % _MANY,
            covers=['ok'], replay=_replay_emergency(_MANY, _MANY_OWNERS, _MANY_KINDS))(_ob_emergency(_MANY, _MANY_OWNERS, _MANY_KINDS))
+
+
+# two ACTIVE farms on the LP token in the quick tier (the four-kind product of S1's two-farm variants is thorough-only): one owner with both farms
+# gets ONE share; two owners split the owners' half
+for _own2 in (('carol', 'carol'), ('carol', 'dave')):
+    obligation('C09', 'S3.emergency_withdraw_two_active_farms_%s' % ('one_owner' if _own2[0] == _own2[1] else 'two_owners'),
+               entries=['execute', 'withdraw_position', 'calculate_emergency_penalty', 'is_farm_expired', 'get_farms_by_lp_denom', 'create_penalty_share_msg'], kind='S',
+               statement='as S1 with two active farms on the LP token owned by %s: every distinct owner receives exactly one share floor(floor(penalty/2)/owners), '
+                         'payout plus shares never exceed the recorded amount' % ('one address' if _own2[0] == _own2[1] else 'two addresses'),
+               bounds='amount [1,2^128/17), base penalty [0,100%], both farms active (symbolic start, budgets), times symbolic', covers=['ok'],
+               replay=_replay_emergency(2, _own2, ['active', 'active']))(_ob_emergency(2, _own2, ['active', 'active']))
